@@ -19,7 +19,8 @@ def RUN(c):
         while True: c.send(None)
     except StopIteration as s:
         return s.value
-def cond_true(*a, **k):
+def cond_true():
+    # a condition without parameters: it can always be evaluated, whatever the signature of the decorated function
     EVAL["cond"] += 1
     return True
 class CallableObj:
@@ -81,6 +82,10 @@ def cases():
                 for dname, dexpr in (("require", "icontract.require(cond_true)"), ("ensure", "icontract.ensure(cond_true)")):
                     add("kwarg_{}/{}/{}".format(reserved, dname, kind), {"D": dexpr}, kind, "x, **kwargs", ["D"], "1, {}=2".format(reserved),
                         ("call", "TypeError"), "reserved_keyword")
+            # the same keywords passed to a callable WITHOUT **kwargs: still the documented rejection, before any condition runs
+            for reserved in ("_ARGS", "_KWARGS"):
+                add("kwarg_{}_no_varkw/require/{}".format(reserved, kind), {"D": "icontract.require(cond_true)"}, kind, "x", ["D"], "1, {}=2".format(reserved),
+                    ("call", "TypeError"), "reserved_keyword")
         # 3. parameter named result / OLD on a function with postconditions -> TypeError at the call
         for reserved in ("result", "OLD"):
             params = reserved if single else "x, " + reserved
@@ -90,7 +95,7 @@ def cases():
             add("param_{}/require+ensure/{}".format(reserved, kind), {"D": "icontract.ensure(cond_true)", "R": "icontract.require(cond_true)"},
                 kind, params, ["R", "D"], args, ("call", "TypeError"), "result_or_OLD_parameter")
             # with preconditions only such a parameter is legal
-            add("param_{}/require_only_ok/{}".format(reserved, kind), {"R": "icontract.require(lambda: cond_true())"}, kind, params, ["R"], args,
+            add("param_{}/require_only_ok/{}".format(reserved, kind), {"R": "icontract.require(cond_true)"}, kind, params, ["R"], args,
                 ("ok",), "control")
         # 6. snapshot placed before any postcondition
         p1 = "x"
@@ -100,7 +105,7 @@ def cases():
             ("decorate", "ValueError"), "snapshot_without_postcondition")
         add("snapshot_below_ensure/{}".format(kind), {"S": "icontract.snapshot(lambda x: x)", "E": "icontract.ensure(cond_true)"}, kind, p1, ["E", "S"], a1,
             ("decorate", "ValueError"), "snapshot_without_postcondition")
-        add("snapshot_above_ensure_ok/{}".format(kind), {"S": "icontract.snapshot(lambda x: x)", "E": "icontract.ensure(lambda: cond_true())"}, kind, p1, ["S", "E"], a1,
+        add("snapshot_above_ensure_ok/{}".format(kind), {"S": "icontract.snapshot(lambda x: x)", "E": "icontract.ensure(cond_true)"}, kind, p1, ["S", "E"], a1,
             ("ok",), "control")
         add("snapshot_unnamed_two_args/{}".format(kind), {"S": "icontract.snapshot(lambda x, y: x)"}, kind, p1, ["S"], a1, ("create", "ValueError"), "snapshot_name")
         add("snapshot_unnamed_two_args_one_defaulted/{}".format(kind), {"S": "icontract.snapshot(lambda x, n=2: x)"}, kind, p1, ["S"], a1, ("create", "ValueError"), "snapshot_name")
@@ -166,6 +171,11 @@ def run_case(case, acc):
             sym = "misuse_silently_accepted" if got == ["ok"] else ("rejected_at_wrong_moment" if want != ["ok"] and got[1:] == want[1:] else
                                                                      ("legal_use_rejected" if want == ["ok"] else "wrong_exception"))
             acc.violation(core.Violation(PROP, sym, feats, "{}: expected {} got {} ({!r})".format(label, want, got, exc),
+                                         spec={"case": case}, script=HDR))
+        elif want != ["ok"] and case["misuse"] in ("reserved_parameter", "reserved_keyword", "result_or_OLD_parameter") and not any(
+                name in str(exc) for name in ("_ARGS", "_KWARGS", "'result'", "'OLD'")):
+            acc.violation(core.Violation(PROP, "rejected_for_another_reason", feats,
+                                         "{}: rejected with {} but the message does not name the reserved word: {!r}".format(label, got, str(exc)[:200]),
                                          spec={"case": case}, script=HDR))
         elif want != ["ok"] and (ns["EVAL"]["body"] or (want[0] == "call" and ns["EVAL"]["cond"])):
             acc.violation(core.Violation(PROP, "evaluated_despite_rejection", feats,
